@@ -399,6 +399,19 @@ def run_stream(name, mode, cases, nontrivial, hook=False, exhaustive=False, boun
             seen.add(c)
             if nontrivial(c, a):
                 sr.distinct_nontrivial += 1
+    if mode in FEED_MODEL_MODES and sr.disagree:
+        # forced schedules run real threads: a disagreement that does not reproduce when the very same
+        # schedule is run again (twice) is a scheduling artefact of a loaded machine, not a difference
+        # between model and implementation (a real difference is deterministic under a forced schedule)
+        kept = []
+        for (c, a, b) in sr.disagree[:50]:
+            again = [run_one(mode, c, hook) for _ in range(2)]
+            same = lambda x, y: (project(x) == project(strip_class(y))) if project else (x == strip_class(y))
+            if all(not same(a2, b2) for (a2, b2) in again):
+                kept.append((c, a, b))
+            else:
+                sr.transient = getattr(sr, "transient", 0) + 1
+        sr.disagree = kept + sr.disagree[50:]
     step = max(1, len(cases) // 3)
     for i in range(0, len(cases), step):
         sr.samples.append({"stream": name, "case": cases[i], "impl": impl[i], "model": model[i]})
